@@ -70,11 +70,23 @@ func initDerivedLeaves() {
 		if len(arr) != 1 {
 			continue
 		}
-		d, ok := arr[0].(*decimal.Big)
-		if !ok || d == nil {
+		// a number in whatever Go representation it reached us: zero and NaN are falsy
+		var truthy bool
+		switch x := arr[0].(type) {
+		case *decimal.Big:
+			if x == nil {
+				continue
+			}
+			truthy = !x.IsNaN(0) && x.Sign() != 0
+		case int:
+			truthy = x != 0
+		case int64:
+			truthy = x != 0
+		case float64:
+			truthy = x != 0 && x == x
+		default:
 			continue
 		}
-		truthy := !d.IsNaN(0) && d.Sign() != 0
 		tLeaves = append(tLeaves, tLeaf{src, truthy, false, true, false})
 	}
 }
